@@ -509,12 +509,7 @@ outer2:
 
 	defer func() {
 		for _, t := range conn.tracks {
-			layer := t.getLayerInfo()
-			layer.limitSid = limitSid
-			if limitSid {
-				layer.wantedSid = 0
-			}
-			t.setLayerInfo(layer)
+			t.setLimitSid(limitSid)
 		}
 	}()
 
